@@ -68,6 +68,9 @@ func (cfg *ChainCfg) handlerSees(r *ChainReq) (attrs, ctx, gen, params, sel stri
 	if r.Target == "post" {
 		params, sel = "", "/svc/post"
 	}
+	if r.Target == "route2" {
+		sel = "/svc2/data/{id}"
+	}
 	for _, f := range fs {
 		switch f.Kind {
 		case "short", "mw-short":
@@ -85,7 +88,7 @@ func (cfg *ChainCfg) handlerSees(r *ChainReq) (attrs, ctx, gen, params, sel stri
 }
 
 func runC06(x *Ctx) {
-	k := chainKnobs{maxFilters: 3, richFilters: true, encoding: false, panics: 0, errors: true, plain: true, nested: false, maxPayload: 300, filterWrites: true}
+	k := chainKnobs{maxFilters: 3, maxCF: 7, twoServices: true, richFilters: true, encoding: false, panics: 0, errors: true, plain: true, nested: false, maxPayload: 300, filterWrites: true}
 	maxClients, maxReqs := 4, 3
 	if x.Thorough() {
 		maxClients, maxReqs = 5, 6
@@ -154,7 +157,7 @@ func checkChainOrder(x *Ctx, sc *chainScen, reqs []*ChainReq) {
 		if r.PanicAt != "" {
 			continue
 		}
-		if r.Target == "route" || r.Target == "post" {
+		if r.Target == "route" || r.Target == "post" || r.Target == "route2" {
 			attrs, ctx, gen, params, sel, reaches := cfg.handlerSees(r)
 			if reaches {
 				got := fmt.Sprintf("attrs=%s ctx=%s gen=%s params=%s sel=%s", res.SawAttrs, res.SawCtx, res.SawGen, res.SawParams, res.SawSel)
